@@ -220,4 +220,22 @@ def _edges(ctx, col, np):
                 if not abs(got - float(ref[0, 0])) <= 1e-9:
                     col.violation('C13/edges/tolerated-grid-misbinned', 'edges %s, samples %s (each 5e-8 of a width inside its bin), classes %s: MIA %r, H(B)-H(B|V) over those bins %r'
                                   % (case['edges'], xs, pat[:len(xs)], got, float(ref[0, 0])), case)
+    # float32 traces against float64 edges whose last edge is not a float32: the sample float32(last edge) lies strictly ABOVE the configured edge when the rounding goes up
+    # (0.3 -> 0.30000001192, 0.1 -> 0.10000000149) and is out of range; when it goes down (0.7 -> 0.69999998808) it belongs to the last bin
+    for lo, hi, nb in ((0.0, 0.3, 3), (-0.7, 0.1, 4), (0.0, 0.7, 7), (0.1, 0.9, 4)):
+        ed = np.linspace(lo, hi, nb + 1)
+        w = (hi - lo) / nb
+        xs32 = np.array([lo + 0.5 * w, lo + 1.5 * w, hi - 0.5 * w, hi, hi, hi, lo, lo + 0.25 * w], dtype='float32')
+        for pat in ([0, 1, 0, 1, 1, 0, 1, 0], [0, 0, 1, 1, 1, 1, 0, 1], [1, 0, 0, 0, 1, 0, 1, 1]):
+            X = xs32[:, None]; Y = np.array(pat, dtype='uint8')[:, None]
+            col.evaluations += 1; col.states += 1; col.nontrivial += 1; col.transitions += 2
+            case = {'edges': 'linspace(%s, %s, %d) float64' % (lo, hi, nb + 1), 'samples_float32': [float(v) for v in xs32], 'classes': pat}
+            try:
+                d = scared.MIADistinguisher(bin_edges=ed, partitions=[0, 1]); d.update(X, Y); got = float(np.asarray(d.compute()).reshape(-1)[0])
+            except Exception as e:
+                col.violation('C13/edges/float32-traces-raised', '%s: %s: %s' % (case['edges'], type(e).__name__, e), case); continue
+            ref, de, _ = RM.mi_matrix(X.astype('float64'), Y, [float(e) for e in ed], [0, 1])
+            if de[0, 0] and not abs(got - float(ref[0, 0])) <= 1e-9:
+                col.violation('C13/edges/float32-sample-at-rounded-last-edge', 'float32 samples %s against float64 edges %s, classes %s: MIA %r, H(B)-H(B|V) with every sample compared to the edges as configured %r'
+                              % ([float(v) for v in xs32], case['edges'], pat, got, float(ref[0, 0])), case)
     col.sample({'check': 'bin_edges validation', 'lists': 'all increasing lists over {0..7}, length 3..6', 'example_refused': [0, 1, 3], 'example_accepted': [1, 3, 5, 7]}, limit=1)
